@@ -251,6 +251,8 @@ class Verdict:
 
     def __init__(self, prop):
         self.prop = prop
+        # replay files of earlier runs of this property are stale
+        shutil.rmtree(os.path.join(VERIF, "replays", prop), ignore_errors=True)
         self.violations = []      # (cls, case)
         self.known = {}           # finding id -> [count, finding, example]
         self.findings = load_findings()
